@@ -253,6 +253,8 @@ impl Position {
                 }
                 "g" => {
                     let (x1, y1) = bbox.locspec(LocSpec::TopLeft);
+                    // (an offset moves a group as it moves anything else)
+                    let (x1, y1) = (x1 + self.dx.unwrap_or(0.), y1 + self.dy.unwrap_or(0.));
                     if x1 != 0. || y1 != 0. {
                         let xy_xfrm = Some(format!("translate({x1}, {y1})"));
 
